@@ -171,3 +171,19 @@ def step (s : G) : Op → G × Option Err
 def run (s : G) (ops : List Op) : G := ops.foldl (fun s op => (step s op).1) s
 
 end Pj
+
+namespace Pj
+
+/-- `WBS.tasks` = `root.all_children` (wbs.py:36-39) -/
+def wbsTasks (s : G) (w : Uid) : Option (List Uid) := descF s.children s.fuel w
+
+/-- `wbs[task_id]` (wbs.py:97-101): the first member with that id, RuntimeError when there is none -/
+def wbsGet (s : G) (w : Uid) (i : Int) : Res Uid :=
+  match wbsTasks s w with
+  | none => .error (.crash .recursion)
+  | some l =>
+    match l.find? (fun t => s.tid t == i) with
+    | some t => .ok t
+    | none => .error .runtime
+
+end Pj
